@@ -7,8 +7,14 @@ import (
 	_ "verif/harness/mon/c01"
 	_ "verif/harness/mon/c02"
 	_ "verif/harness/mon/c03"
+	_ "verif/harness/mon/c04"
+	_ "verif/harness/mon/c05"
+	_ "verif/harness/mon/c06"
 	_ "verif/harness/mon/c08"
 	_ "verif/harness/mon/c09"
 	_ "verif/harness/mon/c11"
+	_ "verif/harness/mon/c15"
+	_ "verif/harness/mon/c16"
+	_ "verif/harness/mon/c17"
 	_ "verif/harness/mon/c19"
 )
